@@ -61,7 +61,9 @@ Scalar(kind, cls) ==
   IN CASE cls = "one"        -> FL(<<1>>)
        [] cls = "nMinus2"    -> FL(BN!Sub(n, <<2>>))
        [] cls = "nMinus1"    -> FL(BN!Sub(n, <<1>>))
-       [] cls = "hiByteZero" -> <<0, (b[2] % 255) + 1>> \o SubSeq(b, 3, L)           \* leading zero byte
+       [] cls = "hiByteZero" -> <<0, 128 + (b[2] % 128)>> \o SubSeq(b, 3, L)         \* leading zero octet, then an octet with the top bit set: an encoder
+                                                                                   \* that strips zeros must still emit the DER sign octet ("one" is the
+                                                                                   \* complementary case: zeros stripped, no sign octet needed)
        [] cls = "loByteZero" -> top((b[1] % 127) + 1) \o SubSeq(b, 3, L - 1) \o <<0>>
        [] cls = "hiBitSet"   -> top(128 + (b[1] % 48)) \o SubSeq(b, 3, L)             \* DER INTEGER needs a sign octet; below every order
        [] cls \in {"random1", "random2", "negative"} -> top((b[1] % 127) + 1) \o SubSeq(b, 3, L)
